@@ -152,21 +152,31 @@ fn handle_put<R: Read, W: Write>(
     let resp = with_commit_lock(lockdir, || {
         let current = current_hash(&dst);
         match cas_decide(current, expected) {
-            Cas::Commit => {
-                let _ = std::fs::rename(&tmp, &dst);
-                Response::PutResult {
+            // Only acknowledge what really happened: a failed rename (e.g. `dst` is
+            // a directory) must not be reported as a commit / a stored conflict-copy.
+            Cas::Commit => match std::fs::rename(&tmp, &dst) {
+                Ok(()) => Response::PutResult {
                     committed: true,
                     current: Some(hash),
+                },
+                Err(e) => {
+                    let _ = std::fs::remove_file(&tmp);
+                    Response::Error(format!("commit failed: {e}"))
                 }
-            }
+            },
             Cas::Conflict => {
                 // Never overwrite on a stale CAS — land a conflict-copy.
                 let mut cn = dst.as_os_str().to_owned();
                 cn.push(format!(".conflict-{}", super::wire::short_hash(&hash)));
-                let _ = std::fs::rename(&tmp, PathBuf::from(cn));
-                Response::PutResult {
-                    committed: false,
-                    current,
+                match std::fs::rename(&tmp, PathBuf::from(cn)) {
+                    Ok(()) => Response::PutResult {
+                        committed: false,
+                        current,
+                    },
+                    Err(e) => {
+                        let _ = std::fs::remove_file(&tmp);
+                        Response::Error(format!("conflict-copy failed: {e}"))
+                    }
                 }
             }
         }
@@ -187,13 +197,19 @@ fn handle_delete<W: Write>(
     let resp = with_commit_lock(lockdir, || {
         let current = current_hash(&dst);
         match cas_decide(current, expected) {
-            Cas::Commit => {
-                let _ = std::fs::remove_file(&dst);
-                Response::DeleteResult {
+            // Acknowledge the delete only if the path is really gone afterwards
+            // (already absent counts: that is the state the client asked for).
+            Cas::Commit => match std::fs::remove_file(&dst) {
+                Ok(()) => Response::DeleteResult {
                     deleted: true,
                     current: None,
-                }
-            }
+                },
+                Err(e) if e.kind() == std::io::ErrorKind::NotFound => Response::DeleteResult {
+                    deleted: true,
+                    current: None,
+                },
+                Err(e) => Response::Error(format!("delete failed: {e}")),
+            },
             Cas::Conflict => Response::DeleteResult {
                 deleted: false,
                 current,
